@@ -475,8 +475,10 @@ func c02Impl(in []int64) []int64 {
 	case 3:
 		l = &c02Plain[string]{s: new(listz.SkipList[string, int64]), to: c02Str, back: c02StrBack, src: src}
 	case 4:
-		l = &c02Cmp[int64]{s: new(listz.SkipListWithCmp[int64, int64]), to: ident, back: ident, src: src,
-			cmp: func(a, b int64) int { return c02Sign(a - b) }}
+		// keys 2^31 apart, comparator `a - b` (a legal total order on these keys; the differences are multiples of 2^31):
+		// a comparator result narrowed to 32 bits flips its sign or becomes 0
+		l = &c02Cmp[int64]{s: new(listz.SkipListWithCmp[int64, int64]), to: func(x int64) int64 { return x << 31 }, back: func(k int64) int64 { return k >> 31 }, src: src,
+			cmp: func(a, b int64) int { return int(a - b) }}
 	case 5:
 		l = &c02Cmp[int64]{s: new(listz.SkipListWithCmp[int64, int64]), to: ident, back: ident, src: src,
 			cmp: func(a, b int64) int { return int(b - a) }} // reversed; magnitude other than 1 on purpose
@@ -501,7 +503,7 @@ func c02Impl(in []int64) []int64 {
 
 var c02Names = []string{"Init", "Set", "SetNx", "SetX", "Get", "GetNode", "NodeSetValue", "Len", "Head", "HeadNextWalk", "Remove", "Clear",
 	"Range", "All", "Keys", "Values", "RangeWithStart", "RangeWithRange", "Shape"}
-var c02Kinds = map[int64]string{0: "SkipList[int]", 3: "SkipList[string]", 4: "SkipListWithCmp[int] ascending", 5: "SkipListWithCmp[int] reversed",
+var c02Kinds = map[int64]string{0: "SkipList[int]", 3: "SkipList[string]", 4: "SkipListWithCmp[int] ascending, keys scaled by 2^31, cmp = a-b", 5: "SkipListWithCmp[int] reversed",
 	6: "SkipListWithCmp[int] composite(k%4,k)", 7: "SkipListWithCmp[string]"}
 
 func c02Describe(in []int64) string {
